@@ -6,6 +6,7 @@ import (
 	"encoding/json"
 	"fmt"
 	"io/fs"
+	"os"
 	"path"
 	"strings"
 
@@ -599,6 +600,18 @@ func (d detail) String() string {
 	return string(b)
 }
 
+// creates reports whether a successful call of this kind adds an entry.
+func creates(c fsx.Call) bool {
+	switch c.Op {
+	case "Mkdir", "MkdirAll", "WriteFile", "Symlink", "CreateTemp", "MkdirTemp", "Create":
+		return true
+	case "OpenFile":
+		return c.Flag&os.O_CREATE != 0
+	}
+
+	return false
+}
+
 // Step applies one operation on the real side and, in lock-step, on the twin.
 func (s *sys) Step(i int) bfs.StepResult {
 	o := s.ops[i]
@@ -675,6 +688,14 @@ func (s *sys) Step(i int) bfs.StepResult {
 	}
 
 	// ---- execute
+	// (does the name exist already? MkdirAll and a non-exclusive open succeed on
+	// an existing name without creating anything)
+	existed := false
+
+	if creates(c) {
+		fsx.Guard(func() { _, err := x.fs.Lstat(c.A); existed = err == nil })
+	}
+
 	rr := exec(x.fs, c, s.users)
 
 	var tr result
@@ -792,6 +813,14 @@ func (s *sys) Step(i int) bfs.StepResult {
 			}
 
 			report(kind, want, got, "call through a view whose root directory was renamed or removed")
+		}
+
+		// a removed directory accepts no new entry: when the view's root is no
+		// longer reachable from the parent's root (removed, or below a removed
+		// directory - a renamed root is still located), nothing can be created
+		// through the view; what would be created is visible to nobody else
+		if !x.located && rr.Kind == "ok" && creates(c) && !existed {
+			report("created-in-removed-directory", "error", "ok", "creation through a view whose root directory was removed through the parent")
 		}
 	}
 
